@@ -631,9 +631,6 @@ theorem readView_matTree (major minor : Nat) (cs : CS α) :
       .ok { nMajor := major, nMinor := minor, indptr := cs.indptr, indices := cs.indices, data := cs.data } := by
   simp only [readView, reqE, matTree, specVals_f, specNats_nat, bind, Except.bind, pure, Except.pure]
 
-theorem cs_eta (cs : CS α) :
-    ({ nMajor := cs.nMajor, nMinor := cs.nMinor, indptr := cs.indptr, indices := cs.indices, data := cs.data } : CS α) = cs := rfl
-
 end groups
 
 /-- the root attributes `to_hdf5` writes -/
